@@ -211,3 +211,97 @@ Theorem str_pattern_normalised sh s :
   if existsb (fun c => negb (pchar_legal c)) s then None
   else if Z.of_nat (length (pchar_strip s)) =? width sh then Some (Some (NStr (pat_of_chars (pchar_strip s)))) else None.
 Proof. unfold normalize_pattern. destruct (existsb _ s); [reflexivity|]. destruct (_ =? width sh); reflexivity. Qed.
+
+(* ---------- the loop terminates for designs without combinational loops ---------- *)
+(* "No combinational loop", semantically: the signals of the design can be ranked so that a signal of rank 0 is not
+   changed by a delta, and the value a delta gives a signal of rank > 0 depends only on the signals of lower rank
+   (states are restricted to an invariant of the loop, e.g. normalised values).  Then R + 1 deltas reach the fixpoint,
+   R the largest rank: settle reports convergence whenever its fuel exceeds R. *)
+Section SettleTerminates.
+  Variables (n : nat) (tab : sigtab) (mods : design).
+  Variable Inv : slots -> Prop.
+  Variable rank : nat -> nat.
+  Variable R : nat.
+  Let F (st : slots) : slots := commit (run_comb tab mods st).
+  Hypothesis HinvF : forall st, Inv st -> Inv (F st).
+  Hypothesis Hrank : forall i, (i < n)%nat -> (rank i <= R)%nat.
+  Hypothesis Hund : forall st i, Inv st -> (i < n)%nat -> rank i = 0%nat -> s_curr (F st) i = s_curr st i.
+  Hypothesis Hdep : forall st1 st2 i, Inv st1 -> Inv st2 -> (i < n)%nat -> (0 < rank i)%nat ->
+    (forall j, (j < n)%nat -> (rank j < rank i)%nat -> s_curr st1 j = s_curr st2 j) ->
+    s_curr (F st1) i = s_curr (F st2) i.
+
+  Fixpoint iterF (j : nat) (st : slots) : slots := match j with O => st | S j' => iterF j' (F st) end.
+
+  Lemma iterF_S j : forall st, iterF (S j) st = F (iterF j st).
+  Proof. induction j as [|j IH]; intros st; [reflexivity|]. change (iterF (S (S j)) st) with (iterF (S j) (F st)). rewrite IH. reflexivity. Qed.
+
+  Lemma iterF_inv j : forall st, Inv st -> Inv (iterF j st).
+  Proof. induction j as [|j IH]; intros st H; simpl; auto. Qed.
+
+  (* after L deltas the signals of rank <= L no longer change *)
+  Lemma rank_stable st : Inv st -> forall L j i, (L <= j)%nat -> (i < n)%nat -> (rank i <= L)%nat ->
+    s_curr (iterF j st) i = s_curr (iterF L st) i.
+  Proof.
+    intros Hst. induction L as [|L IHL]; intros j i Hj Hi Hr.
+    - induction j as [|j IHj]; [reflexivity|]. rewrite iterF_S. rewrite Hund by (auto using iterF_inv; lia).
+      apply IHj. lia.
+    - destruct (Nat.eq_dec (rank i) (S L)) as [E|E].
+      + destruct j as [|j]; [lia|]. rewrite !iterF_S. apply Hdep; auto using iterF_inv; [lia|].
+        intros k Hk Hrk. rewrite (IHL j k) by lia. reflexivity.
+      + rewrite (IHL j i) by lia. symmetry. apply IHL; lia.
+  Qed.
+
+  Lemma env_eqb_intro (a b : env) : (forall i, (i < n)%nat -> a i = b i) -> env_eqb n a b = true.
+  Proof.
+    intros H. unfold env_eqb. apply forallb_forall. intros i Hi. apply in_seq in Hi. apply Z.eqb_eq. apply H. lia.
+  Qed.
+
+  Lemma settle_finds fuel : forall st m, (m < fuel)%nat ->
+    env_eqb n (s_curr (F (iterF m st))) (s_curr (iterF m st)) = true -> snd (settle fuel n tab mods st) = true.
+  Proof.
+    induction fuel as [|f IH]; intros st m Hm He; [lia|]. cbn [settle]. cbv zeta. fold (F st).
+    destruct (env_eqb n (s_curr (F st)) (s_curr st)) eqn:E; [reflexivity|].
+    destruct m as [|m]; [cbn [iterF] in He; rewrite He in E; discriminate|]. cbn [iterF] in He. apply (IH (F st) m); [lia|exact He].
+  Qed.
+
+  Theorem settle_terminates st fuel : Inv st -> (R < fuel)%nat -> snd (settle fuel n tab mods st) = true.
+  Proof.
+    intros Hst Hf. apply (settle_finds fuel st R Hf). apply env_eqb_intro. intros i Hi.
+    rewrite <- iterF_S. apply (rank_stable st Hst R (S R) i); auto.
+  Qed.
+End SettleTerminates.
+
+(* non-vacuity of settle_terminates: y = ~x (signals 0 = x, 1 = y, one bit each) *)
+Definition ex_tab : sigtab := base_tab [mk_sd (Sh 1 false) 0 false; mk_sd (Sh 1 false) 0 false].
+Definition ex_mods : design := [[[SAssign (ESig 1 (Sh 1 false)) (EOp1 ONot (ESig 0 (Sh 1 false)))]]].
+Definition ex_inv (st : slots) : Prop :=
+  (forall i, s_next st i = s_curr st i) /\ (s_curr st 1%nat = 0 \/ s_curr st 1%nat = 1).
+Definition ex_rank (i : nat) : nat := match i with 1%nat => 1%nat | _ => 0%nat end.
+
+Lemma ex_delta_y st : exists v, s_curr (commit (run_comb ex_tab ex_mods st)) 1%nat = slot_update (s_next st 1%nat) v 1 /\
+  forall st', s_curr st' 0%nat = s_curr st 0%nat ->
+    s_curr (commit (run_comb ex_tab ex_mods st')) 1%nat = slot_update (s_next st' 1%nat) v 1.
+Proof.
+  eexists. split.
+  - unfold ex_mods, ex_tab, run_comb. cbn [fold_left nth commit s_curr s_next comb_process]. unfold stmts_mask. cbn. reflexivity.
+  - intros st' H. unfold ex_mods, ex_tab, run_comb. cbn [fold_left nth commit s_curr s_next comb_process]. unfold stmts_mask. cbn.
+    rewrite H. reflexivity.
+Qed.
+
+Lemma slot_update_bit x v : x = 0 \/ x = 1 -> slot_update x v 1 = Z.land v 1.
+Proof. intros [-> | ->]; unfold slot_update; cbn; [reflexivity|]. reflexivity. Qed.
+
+Example settle_terminates_example st fuel : ex_inv st -> (1 < fuel)%nat -> snd (settle fuel 2 ex_tab ex_mods st) = true.
+Proof.
+  intros Hst Hf. apply (settle_terminates 2 ex_tab ex_mods ex_inv ex_rank 1); auto.
+  - intros s [Hn Hy]. split; [intros i; reflexivity|].
+    destruct (ex_delta_y s) as (v & Hv & _). rewrite Hv, slot_update_bit by (rewrite Hn; exact Hy).
+    replace (Z.land v 1) with (v mod 2) by (change 1 with (Z.ones 1); rewrite Z.land_ones by lia; reflexivity).
+    pose proof (Z.mod_pos_bound v 2 ltac:(lia)). lia.
+  - intros [|[|i]] Hi; simpl; lia.
+  - intros s i [Hn _] Hi Hr. destruct i as [|[|i]]; [|discriminate|lia].
+    rewrite <- (Hn 0%nat). reflexivity.
+  - intros s1 s2 i [Hn1 Hy1] [Hn2 Hy2] Hi Hr Hlow. destruct i as [|[|i]]; [simpl in Hr; lia| |lia].
+    destruct (ex_delta_y s2) as (v & Hv & Hv'). rewrite Hv, (Hv' s1) by (apply Hlow; simpl; lia).
+    rewrite !slot_update_bit by (rewrite ?Hn1, ?Hn2; assumption). reflexivity.
+Qed.
